@@ -38,6 +38,16 @@ CLAIMS["C01"] = dict(
     tech="CBMC code contracts + loop contracts on tail fragments of the real solver functions; ghost index/ghost cell for the universally quantified scan postcondition",
     ref="5/C01")
 
+CLAIMS["C20"] = dict(
+    cat="proof",
+    text="Value-determinism of the ordering kernels through which allocation addresses could reach results: CmpNodePos, compare_events, CompareConstraints, ANodeCmp are "
+         "proved (all field values) to return a stated function of values and to evaluate no relational comparison of pointers to different objects (CBMC same-object check); "
+         "PseudoRandom::getNext is a function of the seed only. Whole-run bit-identity, symmetries, translation and permutation invariance are undecided residue.",
+    note=BASE_TB + "CmpNodePos precondition 'distinct nodes have distinct variable ids' is by inspection of the callers. Address tie-breaks in CmpVertInf, CmpVisEdgeRotation's "
+         "fallback and ActionInfo::operator< (ConnectionPinChange) are listed as not under obligation.",
+    tech="CBMC code contracts on verbatim comparator slices; CBMC pointer-relation (same-object) check as the address-independence obligation; native two-run replay with heap perturbation",
+    ref="5/C20")
+
 NA = {
     "C02": "Optimality of solve() is a KKT/convergence statement about an iterative active-set method over heap-allocated block trees in IEEE arithmetic; per-function facts need FP multiply/divide reasoning no installed back end finishes (DESIGN 3) and would not imply agreement with a QP oracle.",
     "C03": "'No route segment crosses an obstacle' is emergent from visibility-graph construction (std::list/std::set sweeps), A*, nudging and hyperedge improvement; only the leaf predicates are reachable and they are claimed under C16.",
@@ -52,7 +62,7 @@ NA = {
     "C19": "Decompositions over std::map-of-shared_ptr graphs and a sweep-line planariser; no function within the front end's reach carries the partition property.",
 }
 
-PENDING = {k: 'claim designed in DESIGN.md section 5 but its contract jobs are not built at this commit; not claimed yet' for k in ['C09','C10','C15','C17','C18','C20']}  # id -> reason (claims planned in DESIGN.md whose jobs are not built yet)
+PENDING = {k: 'claim designed in DESIGN.md section 5 but its contract jobs are not built at this commit; not claimed yet' for k in ['C09','C10','C15','C17','C18']}  # id -> reason (claims planned in DESIGN.md whose jobs are not built yet)
 
 
 def main():
